@@ -730,6 +730,267 @@ pub fn c09_clone_resume(s: &State) -> Vec<Failure> {
     out
 }
 
+// ------------------------------------------------------------------------------------
+// iterator protocol: every provided method a type may override (nth, last, count, fold, size_hint;
+// nth_back, rfold) — and the adaptors built on them (skip, step_by, rev, by_ref) — agrees with
+// repeated next()/next_back() from every partly consumed state, and leaves the iterator where
+// repeated next() would have left it
+// ------------------------------------------------------------------------------------
+pub struct ProtoFail {
+    pub why: String,
+    /// an element was delivered that the iterator had already delivered, or more often than it occurs
+    pub dup: bool,
+}
+
+fn excess<T: PartialEq>(produced: &[T], allowed: &[T]) -> bool {
+    produced.iter().any(|x| produced.iter().filter(|y| *y == x).count() > allowed.iter().filter(|y| *y == x).count())
+}
+
+fn probe_indices(len: usize) -> Vec<usize> {
+    let mut v = vec![0, 1, 2, 3, len.saturating_sub(1), len, len + 1];
+    v.sort_unstable();
+    v.dedup();
+    v
+}
+
+/// forward-only checks of the state `at()` whose remaining sequence is `rest`
+fn proto_fwd_at<I>(at: &dyn Fn() -> I, rest: &[I::Item], fuel: usize, ctx: &str) -> Option<ProtoFail>
+where
+    I: Iterator + Clone,
+    I::Item: PartialEq + Clone + std::fmt::Debug,
+{
+    let l = rest.len();
+    let bad = |what: String, got: &[I::Item]| Some(ProtoFail {
+        why: format!("{ctx} the rest is {:?}, but {what}", rest),
+        dup: excess(got, rest),
+    });
+    for j in probe_indices(l) {
+        let mut it = at();
+        let r = it.nth(j);
+        let (after, _) = pull(it, fuel);
+        let mut got: Vec<I::Item> = r.clone().into_iter().collect();
+        got.extend(after.iter().cloned());
+        let want_after = &rest[(j + 1).min(l)..];
+        if r != rest.get(j).cloned() || after[..] != *want_after {
+            return bad(format!("nth({j}) returns {:?} and the iterator then yields {:?}", r, after), &got);
+        }
+        let (got, _) = pull(at().skip(j), fuel);
+        if got[..] != rest[j.min(l)..] {
+            return bad(format!("skip({j}) yields {:?}", got), &got);
+        }
+    }
+    for st in [2usize, 3] {
+        let (got, _) = pull(at().step_by(st), fuel);
+        let want: Vec<I::Item> = rest.iter().step_by(st).cloned().collect();
+        if got != want {
+            return bad(format!("step_by({st}) yields {:?}", got), &got);
+        }
+    }
+    let r = at().last();
+    if r != rest.last().cloned() {
+        return bad(format!("last() = {:?}", r), &r.clone().into_iter().collect::<Vec<_>>());
+    }
+    let c = at().count();
+    if c != l {
+        return Some(ProtoFail { why: format!("{ctx} the rest is {:?}, but count() = {c}", rest), dup: c > l });
+    }
+    let got = at().fold(Vec::new(), |mut v, x| {
+        v.push(x);
+        v
+    });
+    if got[..] != *rest {
+        return bad(format!("fold()/for_each() visits {:?}", got), &got);
+    }
+    let (lo, hi) = at().size_hint();
+    if lo > l || hi.map(|h| h < l).unwrap_or(false) {
+        return Some(ProtoFail { why: format!("{ctx} the rest is {:?}, but size_hint() = ({lo}, {hi:?})", rest), dup: false });
+    }
+    // consuming through a &mut borrow leaves an exhausted iterator
+    let mut it = at();
+    let c = it.by_ref().count();
+    let again = [it.next(), it.next()];
+    if c != l || again.iter().any(|x| x.is_some()) {
+        let got: Vec<I::Item> = again.iter().flatten().cloned().collect();
+        return bad(format!("by_ref().count() = {c} and the iterator then yields {:?}", again), &got);
+    }
+    None
+}
+
+/// the checks that involve the back end of a double-ended iterator
+fn proto_back_at<I>(at: &dyn Fn() -> I, rest: &[I::Item], fuel: usize, ctx: &str) -> Option<ProtoFail>
+where
+    I: DoubleEndedIterator + Clone,
+    I::Item: PartialEq + Clone + std::fmt::Debug,
+{
+    let l = rest.len();
+    let rev: Vec<I::Item> = rest.iter().rev().cloned().collect();
+    let bad = |what: String, got: &[I::Item]| Some(ProtoFail {
+        why: format!("{ctx} the rest is {:?}, but {what}", rest),
+        dup: excess(got, rest),
+    });
+    for j in probe_indices(l) {
+        // nth from the front, the rest drained from the back
+        let mut it = at();
+        let r = it.nth(j);
+        let (after, _) = pull(it.rev(), fuel);
+        let mut got: Vec<I::Item> = r.clone().into_iter().collect();
+        got.extend(after.iter().cloned());
+        let want: Vec<I::Item> = rest[(j + 1).min(l)..].iter().rev().cloned().collect();
+        if r != rest.get(j).cloned() || after != want {
+            return bad(format!("nth({j}) returns {:?} and the iterator then yields {:?} from the back", r, after), &got);
+        }
+        // nth_back, the rest drained from the front / from the back
+        for from_back in [false, true] {
+            let mut it = at();
+            let r = it.nth_back(j);
+            let after = if from_back { pull(it.rev(), fuel).0 } else { pull(it, fuel).0 };
+            let mut got: Vec<I::Item> = r.clone().into_iter().collect();
+            got.extend(after.iter().cloned());
+            let keep = &rest[..l.saturating_sub(j + 1)];
+            let want: Vec<I::Item> = if from_back { keep.iter().rev().cloned().collect() } else { keep.to_vec() };
+            if r != rev.get(j).cloned() || after != want {
+                return bad(format!("nth_back({j}) returns {:?} and the iterator then yields {:?} from the {}", r, after, if from_back { "back" } else { "front" }), &got);
+            }
+        }
+        let (got, _) = pull(at().rev().skip(j), fuel);
+        if got[..] != rev[j.min(l)..] {
+            return bad(format!("rev().skip({j}) yields {:?}", got), &got);
+        }
+    }
+    let (got, _) = pull(at().rev().step_by(2), fuel);
+    let want: Vec<I::Item> = rev.iter().step_by(2).cloned().collect();
+    if got != want {
+        return bad(format!("rev().step_by(2) yields {:?}", got), &got);
+    }
+    let got = at().rfold(Vec::new(), |mut v, x| {
+        v.push(x);
+        v
+    });
+    if got != rev {
+        return bad(format!("rfold() visits {:?}", got), &got);
+    }
+    let r = at().rev().last();
+    if r != rest.first().cloned() {
+        return bad(format!("rev().last() = {:?}", r), &r.clone().into_iter().collect::<Vec<_>>());
+    }
+    let c = at().rev().count();
+    if c != l {
+        return Some(ProtoFail { why: format!("{ctx} the rest is {:?}, but rev().count() = {c}", rest), dup: c > l });
+    }
+    None
+}
+
+pub fn proto_fwd<I, F>(mk: F, full: &[I::Item], fuel: usize) -> Option<ProtoFail>
+where
+    I: Iterator + Clone,
+    I::Item: PartialEq + Clone + std::fmt::Debug,
+    F: Fn() -> I,
+{
+    let len = full.len();
+    for k in 0..=len + 1 {
+        // (k = len + 1: one call beyond the end)
+        let at = || {
+            let mut it = mk();
+            for _ in 0..k {
+                it.next();
+            }
+            it
+        };
+        let ctx = format!("after {k} calls of next()");
+        if let Some(f) = proto_fwd_at(&at, &full[k.min(len)..], fuel, &ctx) {
+            return Some(f);
+        }
+    }
+    None
+}
+
+pub fn proto_de<I, F>(mk: F, full: &[I::Item], fuel: usize) -> Option<ProtoFail>
+where
+    I: DoubleEndedIterator + Clone,
+    I::Item: PartialEq + Clone + std::fmt::Debug,
+    F: Fn() -> I,
+{
+    let len = full.len();
+    for f in 0..=len {
+        for b in 0..=(len - f) {
+            for beyond in [false, true] {
+                if beyond && f + b != len {
+                    continue;
+                }
+                let at = || {
+                    let mut it = mk();
+                    for _ in 0..f {
+                        it.next();
+                    }
+                    for _ in 0..b {
+                        it.next_back();
+                    }
+                    if beyond {
+                        it.next_back();
+                        it.next();
+                    }
+                    it
+                };
+                let ctx = format!("after {f} calls of next() and {b} of next_back(){}", if beyond { " (and one more of each)" } else { "" });
+                let rest = &full[f..len - b];
+                if b > 0 || beyond {
+                    if let Some(x) = proto_fwd_at(&at, rest, fuel, &ctx) {
+                        return Some(x);
+                    }
+                }
+                if let Some(x) = proto_back_at(&at, rest, fuel, &ctx) {
+                    return Some(x);
+                }
+            }
+        }
+    }
+    None
+}
+
+/// C09 / C10 / C02 (observer): the iterator protocol for all nine traversals from every live node.
+#[allow(deprecated)]
+pub fn iter_protocol(s: &State) -> Vec<Failure> {
+    let mut out = Vec::new();
+    let e = Expected { m: &s.model, cur: &s.cur };
+    let n = s.arena.count();
+    let fuel = 2 * n + 4;
+    for x in s.model.live_slots() {
+        let id = s.cur[x];
+        let class = s.model.position(x);
+        let mut report = |name: &str, de: bool, r: Result<Option<ProtoFail>, String>| match r {
+            Ok(None) => {}
+            Ok(Some(f)) => out.push(fail(
+                C09 | if de { C10 } else { 0 } | if f.dup { C02 } else { 0 },
+                "iterator-protocol", false, name, class,
+                if f.dup { "provided-method-yields-a-node-again" } else { "provided-method-disagrees-with-next" },
+                format!("{name}({}): {}; arena: {}", x + 1, f.why, fmt_obs(&s.obs)))),
+            Err(m) => out.push(fail(C09 | if de { C10 } else { 0 }, "iterator-protocol", false, name, class, "iterator-panicked",
+                format!("{name}({}): a provided method panicked: {m}", x + 1))),
+        };
+        let a = &s.arena;
+        let mut rc = e.children(x);
+        rc.reverse();
+        let tr = e.traverse(x);
+        let mut rtr = tr.clone();
+        rtr.reverse();
+        report("ancestors", false, guarded(|| proto_fwd(|| id.ancestors(a), &e.ancestors(x), fuel)));
+        report("predecessors", false, guarded(|| proto_fwd(|| id.predecessors(a), &e.predecessors(x), fuel)));
+        report("reverse_children", false, guarded(|| proto_fwd(|| id.reverse_children(a), &rc, fuel)));
+        report("descendants", false, guarded(|| proto_fwd(|| id.descendants(a), &e.descendants(x), fuel)));
+        report("traverse", false, guarded(|| proto_fwd(|| id.traverse(a), &tr, 2 * fuel)));
+        report("reverse_traverse", false, guarded(|| proto_fwd(|| id.reverse_traverse(a), &rtr, 2 * fuel)));
+        for (name, full) in [("children", e.children(x)), ("preceding_siblings", e.preceding(x)), ("following_siblings", e.following(x))] {
+            let r = guarded(|| match name {
+                "children" => proto_fwd(|| id.children(a), &full, fuel).or_else(|| proto_de(|| id.children(a), &full, fuel)),
+                "preceding_siblings" => proto_fwd(|| id.preceding_siblings(a), &full, fuel).or_else(|| proto_de(|| id.preceding_siblings(a), &full, fuel)),
+                _ => proto_fwd(|| id.following_siblings(a), &full, fuel).or_else(|| proto_de(|| id.following_siblings(a), &full, fuel)),
+            });
+            report(name, true, r);
+        }
+    }
+    out
+}
+
 /// C10 (observer): after f front pulls and b back pulls, every way of consuming the rest agrees with
 /// the remaining middle of the forward sequence: count, last, fold (for_each/sum/collect go through
 /// it), rfold via rev(), nth, nth_back, size_hint.
@@ -1063,6 +1324,12 @@ pub fn c11(s: &State) -> Vec<Failure> {
                 push("get_node_id", "foreign-clone", format!("get_node_id(node of a clone) = {}", fmt_id(a.get_node_id(node))));
             }
         }
+        // ... and the other way round (whichever buffer lies at the lower address is asked about the other)
+        for node in a.iter() {
+            if clone.get_node_id(node).is_some() || big.get_node_id(node).is_some() {
+                push("get_node_id", "foreign-clone", format!("a clone / another arena asked about a node of this arena: get_node_id = {} / {}", fmt_id(clone.get_node_id(node)), fmt_id(big.get_node_id(node))));
+            }
+        }
         msgs
     });
     match r {
@@ -1147,6 +1414,30 @@ pub fn c06(s: &State) -> Vec<Failure> {
             }
         }
         let _ = seen_dup;
+        // "different from every id handed out before" also through Ord and Hash, which must agree
+        // with == (ids are kept in BTreeSets / BTreeMaps / HashMaps)
+        if iss.extra.len() >= 2 {
+            let v = &iss.extra;
+            'pairs: for i in 0..v.len() {
+                for j in (i + 1)..v.len() {
+                    let (a, b) = (v[i], v[j]);
+                    let ord_eq = a.cmp(&b) == std::cmp::Ordering::Equal || a.partial_cmp(&b) == Some(std::cmp::Ordering::Equal);
+                    let antisym = a.cmp(&b) == b.cmp(&a).reverse();
+                    if (a != b && ord_eq) || (a == b && !ord_eq) || !antisym {
+                        out.push(fail(C06, "fresh-id", false, "ordering", "-", "ordering-identifies-different-ids",
+                            format!("slot {}: the ids {} and {} are {} but compare as {:?} / {:?} (a BTreeSet of issued ids would {} the new one)",
+                                x + 1, fmt_id(Some(a)), fmt_id(Some(b)), if a == b { "equal" } else { "different" }, a.cmp(&b), b.cmp(&a), if a != b { "reject" } else { "duplicate" })));
+                        break 'pairs;
+                    }
+                }
+            }
+            let bt: std::collections::BTreeSet<NodeId> = v.iter().copied().collect();
+            let hs: std::collections::HashSet<NodeId> = v.iter().copied().collect();
+            if bt.len() != hs.len() {
+                out.push(fail(C06, "fresh-id", false, "ordering", "-", "ordered-and-hashed-sets-disagree",
+                    format!("slot {}: {} ids issued, {} distinct in a HashSet, {} in a BTreeSet", x + 1, v.len(), hs.len(), bt.len())));
+            }
+        }
     }
     out
 }
@@ -1219,6 +1510,17 @@ pub fn c13(s: &State, cfg: &JudgeCfg, product_steps: &mut u64) -> Vec<Failure> {
     if roomy.capacity() != cap_roomy {
         out.push(fail(C13, "clear", false, "clear", "-", "clear-does-not-keep-capacity",
             format!("clear() of an arena with count {} and capacity {} leaves capacity {}", a.count(), cap_roomy, roomy.capacity())));
+    }
+    // two arenas with the same history answer the same question alike (whichever of them the allocator
+    // placed at the lower address): each asked about the other's nodes
+    if a.count() > 0 {
+        let r1 = guarded(|| c.iter().map(|n| a.get_node_id(n)).collect::<Vec<_>>());
+        let r2 = guarded(|| a.iter().map(|n| c.get_node_id(n)).collect::<Vec<_>>());
+        if r1 != r2 || r1.as_ref().map(|v| v.iter().any(|x| x.is_some())).unwrap_or(true) {
+            out.push(fail(C13 | C11, "clone", false, "get_node_id", "-", "twin-arenas-answer-differently",
+                format!("an arena asked for the ids of its clone's nodes answers {:?}; the clone asked about the original's nodes answers {:?}",
+                    r1.map(|v| v.iter().map(|i| fmt_id(*i)).collect::<Vec<_>>()), r2.map(|v| v.iter().map(|i| fmt_id(*i)).collect::<Vec<_>>()))));
+        }
     }
     // original untouched by what happened to the clone
     if obs::debug_hash(a) != obs::debug_hash(&s.arena) {
@@ -1448,6 +1750,20 @@ pub fn liveness_observers(s: &State, target: Props) -> Vec<Failure> {
     out
 }
 
+/// C12, model-free: a slot the arena itself reports removed reports no link.
+pub fn removed_links(obs: &[SlotObs]) -> Vec<Failure> {
+    let mut out = Vec::new();
+    for (x, o) in obs.iter().enumerate() {
+        for k in 0..5 {
+            if o.removed && o.links[k].is_some() {
+                out.push(fail(C12, "removed-links", false, obs::LINK_NAMES[k], "removed", "removed-node-reports-link",
+                    format!("removed slot {} still reports {} = {}; arena: {}", x + 1, obs::LINK_NAMES[k], fmt_id(o.links[k]), fmt_obs(obs))));
+            }
+        }
+    }
+    out
+}
+
 pub struct StateJudgeCounters {
     pub pulls: u64,
     pub product_steps: u64,
@@ -1491,6 +1807,9 @@ pub fn judge_state(
     if t & C02 != 0 {
         out.extend(c02_iterators(s));
         out.extend(c02_mixed_pulls(s));
+    }
+    if t & (C02 | C09 | C10) != 0 && out.is_empty() {
+        out.extend(iter_protocol(s));
     }
     if t & C06 != 0 {
         out.extend(c06(s));
